@@ -6,6 +6,8 @@ From Verif Require Import Base.Bytestr gen.Tables Lex.LexModel Lex.LexTotal Fron
 Open Scope N_scope.
 
 (* The lexer terminates on every byte string with an answer (tokens or an error). *)
+From Verif Require Import Facts.C13Facts.
+
 Theorem C13_lexer_total : forall src, tokenize src <> LexFuel.
 Proof. exact tokenize_total. Qed.
 Print Assumptions C13_lexer_total.
@@ -14,18 +16,18 @@ Print Assumptions C13_lexer_total.
 Theorem C13_script_xor_error : forall E path t,
   (exists s, transpile E path t = Script s) \/ transpile E path t = Failed
   \/ transpile E path t = Crashed \/ transpile E path t = OutOfFuel.
-Proof. intros. destruct (transpile E path t); eauto. Qed.
+Proof. exact C13_script_xor_error_proof. Qed.
 Print Assumptions C13_script_xor_error.
 
 (* A missing main file is an error. *)
 Theorem C13_missing_file : forall E path t, aget path (e_fs E) = None -> transpile E path t = Failed.
-Proof. intros E path t H. unfold transpile. rewrite H. reflexivity. Qed.
+Proof. exact C13_missing_file_proof. Qed.
 Print Assumptions C13_missing_file.
 
 (* A lexical error in the main file is an error of the whole transpilation. *)
 Theorem C13_lex_error_fails : forall E path fe t,
   tokenize (fe_content fe) = LexErr -> transpile_entry E path fe t = Failed.
-Proof. intros E path fe t H. unfold transpile_entry. cbn [parse_entry]. rewrite H. reflexivity. Qed.
+Proof. exact C13_lex_error_fails_proof. Qed.
 Print Assumptions C13_lex_error_fails.
 
 (* what is not proved: the fuel the model supplies is always enough, and no converter method is called
